@@ -264,6 +264,9 @@ func TestVerifC34(t *testing.T) {
 					r.Fail("repair-result", "damaged-pack-kept", "damage %s: pack %s still exists after repair packs", where, id[:8])
 				}
 			}
+			// what is available when repair snapshots starts (it may re-create a tree that was lost, when a
+			// repaired tree happens to equal it)
+			mid := model.View(w.key, w.store.Clone(), true)
 			// repair snapshots --forget
 			var serr error
 			w.free(func() { serr = w.cmdRepairSnapshots(w.newProc("repair-snapshots"), nil, true) })
@@ -294,7 +297,7 @@ func TestVerifC34(t *testing.T) {
 				nid, ok := succ[sid]
 				if !ok {
 					// the snapshot may only vanish if its root tree is gone
-					if after.Available("tree/" + before.Snapshots[sid].Tree) {
+					if mid.Available("tree/" + before.Snapshots[sid].Tree) {
 						r.Fail("files-kept", "snapshot-dropped", "damage %s: snapshot %s has no successor although its root tree is still available", where, sid[:8])
 					}
 					continue
